@@ -34,8 +34,11 @@ def match_finding(f, prop, v):
 
 
 # properties that are also judged on the executions recorded from the repository's own test-suite (harness/repotests.py)
-RECORDED = {"C01": ("Trace_C01", ["C01."]), "C06": ("Trace_C01", ["C06."]), "C03": ("Trace_Shadow", ["C03."]),
-            "C11": ("Trace_Shadow", ["C11."]), "C05": ("Trace_C05", ["C05."]), "C08": ("Trace_C08", ["C08."])}
+RECORDED = {"C01": [("Trace_C01", ["C01."])], "C06": [("Trace_C01", ["C06."]), ("Trace_Acl", ["C06."])], "C03": [("Trace_Shadow", ["C03."])],
+            "C11": [("Trace_Shadow", ["C11."]), ("Trace_Acl", ["C11."])], "C05": [("Trace_C05", ["C05."])], "C08": [("Trace_C08", ["C08."])],
+            "C02": [("Trace_Acl", ["C02."])], "C04": [("Trace_Acl", ["C04."])], "C15": [("Trace_Acl", ["C15."])], "C16": [("Trace_Acl", ["C16."])],
+            "C19": [("Trace_Acl", ["C19."])],
+            "C17": [("Trace_Acl", ["C02.", "C04.", "C06.", "C10.", "C11.", "C15.", "C16.", "C17.", "C19."])]}
 
 
 def main(argv=None):
@@ -65,8 +68,9 @@ def main(argv=None):
         res = mod.run(a.tier, a.seed)
         if prop in RECORDED:
             from harness import repotests
-            core.preflight(RECORDED[prop][0])
-            res = repotests.merge(res, *repotests.judge(prop, *RECORDED[prop]))
+            for module, prefixes in RECORDED[prop]:
+                core.preflight(module)
+                res = repotests.merge(res, *repotests.judge(prop, module, prefixes))
     except core.MachineryError as ex:
         print(f"MACHINERY-FAILURE property={prop}: {ex}", file=sys.stderr)
         core.cleanup()
